@@ -250,6 +250,7 @@ pub fn run(run: &Run) {
         let agree: u64 = vals
             .par_iter()
             .map(|v| {
+                let _w = crate::watch::enter_with(|| v.show());
                 let r = quiet_catch(std::panic::AssertUnwindSafe(|| {
                     let n = v.build();
                     let lib = f.e.format_narsese(&n);
